@@ -37,6 +37,19 @@ CHECKS = {
     note='Trusted: reference codecs and the read_view/write_view capability table (DESIGN '
          'Appendix B), CPython text/gzip/expat layers. No --trans; raw parentheses only where the '
          'documented mapping applies; gf is not requested for TIGER-XML output (unspecified).'),
+ 'C04': dict(
+    ref='DESIGN.md §5 C04',
+    technique='deterministic simulation: seeded programs of transformations on one mutable tree '
+              '(state carried in node flags), interleaved sessions, invariants after every step '
+              'plus label-multiset reference model',
+    text='Seeded exploration over programs: 1-6 prerequisite-respecting transformations (13 op '
+         'variants) applied step by step to a real tree built through the API with shuffled '
+         'child lists or delivered by a real reader, 1-2 programs interleaved in one process; '
+         'after every step the raw tree dump must be well formed, the returned node must be the '
+         'root, the (word, POS) sequence unchanged and the label multiset must follow the '
+         'documented model. Sampling, not proof; failing programs are shrunk to 1-3 ops.',
+    note='Trusted: raw dump / well-formedness predicate (tsim/treeview.py), the label-multiset '
+         'model derived from the transformation docstrings. Prerequisites judged conservatively.'),
 }
 
 NOT_BUILT_YET = {}
